@@ -220,6 +220,7 @@ def phase3_inv(ex, e0, st, m, k, logs, price):
     c = [("phase3: 0 <= k <= len(pending)", z3.And(0 <= k, k <= npend)),
          ("phase3: buy volumes = entry volume - fill history", z3.ForAll([x], z3.Implies(e0["origB"][x], vol[x] == vol0[x] - fhB[k][x]))),
          ("phase3: sell volumes = entry volume - fill history", z3.ForAll([x], z3.Implies(e0["origS"][x], vol[x] == vol0[x] - fhS[k][x]))),
+         ("phase3: the original orders are objects that existed at entry", z3.ForAll([x], z3.Implies(z3.Or(e0["origB"][x], e0["origS"][x]), z3.And(e0["st"].is_alloc(x), st.is_alloc(x))))),
          ("phase3: buy queue = original orders with volume left", z3.ForAll([x], st.mem(qB, x) == z3.And(e0["origB"][x], vol[x] > 0))),
          ("phase3: sell queue = original orders with volume left", z3.ForAll([x], st.mem(qS, x) == z3.And(e0["origS"][x], vol[x] > 0))),
          ("phase3: len(logs) == k", st.length(logs) == k),
